@@ -131,7 +131,15 @@ impl<'a> Gen<'a> {
             }
             9..=12 => {
                 let (p, pk) = self.pred();
-                let set = match self.rng.below(if m == Mode::C09 { 5 } else { 9 }) {
+                if m != Mode::C09 && self.rng.chance(1, 8) {
+                    // the full-row write-back an ORM produces: the key is assigned the value it
+                    // already has while other (possibly UNIQUE) columns change
+                    let k = self.some_id();
+                    let a = self.val_a();
+                    return (format!("UPDATE t SET id = {}, a = {}, b = {} WHERE id = {}", k, a, self.rng.range(0, 5), k), "update:key-to-same-value".into());
+                }
+                let set = match self.rng.below(if m == Mode::C09 { 5 } else { 10 }) {
+                    9 => "a = NULL".to_string(),
                     0 => format!("a = {}", self.rng.range(0, 6)),
                     1 => "a = a + 1, b = a".to_string(),
                     2 => format!("c = '{}'", self.rng.pick(&["x", "q", ""])),
@@ -388,8 +396,21 @@ fn run(ctx: &mut Ctx, mode: Mode) {
                     }
                 }
                 Mode::C15 => {
+                    // once the rows themselves violate a declared key (C10's subject) "the index a
+                    // rebuild would produce" is no longer well defined: the case ends there
+                    if constraint_violation(sch, &after).is_some() {
+                        ctx.count("case-ended:rows-violate-a-declared-key", 1);
+                        break;
+                    }
                     if let Some((what, detail)) = index_mismatch(&s, sch) {
-                        ctx.violation(case, format!("{}|{}", what, kind.split(':').next().unwrap_or("")), json!({"sql": sql, "outcome": out.brief(), "detail": detail, "history": hist(&s), "indexes": indexes, "schema": sch.name}));
+                        // UPDATE statements are split by how many rows they touched: the open
+                        // findings concern multi-row updates, a single-row update is another matter
+                        let stmt = kind.split(':').next().unwrap_or("");
+                        let rows_class = match (&out, stmt) {
+                            (Outcome::Count(n), "update") if *n <= 1 => "-single-row",
+                            _ => "",
+                        };
+                        ctx.violation(case, format!("{}|{}{}", what, stmt, rows_class), json!({"sql": sql, "outcome": out.brief(), "detail": detail, "history": hist(&s), "indexes": indexes, "schema": sch.name}));
                         break;
                     }
                     ctx.nontrivial(shape);
